@@ -570,12 +570,12 @@ def run(ctx):
 
 def dim_of(va, vb):
     a, b = va.split("\t"), vb.split("\t")
+    if a[5] != b[5]:
+        return "restore"
     if a[2] != b[2]:
         return "engine"
     if a[4] != b[4]:
         return "clock"
-    if a[5] != b[5]:
-        return "restore"
     if a[6] != b[6]:
         return "localexpiry"
     sa, sb = (a[8] if len(a) > 8 else "-"), (b[8] if len(b) > 8 else "-")
